@@ -73,7 +73,15 @@ def run_convert(spec=None, probes=None, label='', factor=1, extra_files=(), same
                 f.write(content)
         res['src_files'] = {fn: np.load(str(src / fn)) for fn in os.listdir(str(src))
                             if fn.endswith('.npy') and not fn.startswith('pc_features')}
-        out_dir = src if same_dir else d / 'alf'
+        if same_dir == 'dotdot':
+            out_dir = src / '..' / src.name           # another spelling of the source directory
+        elif same_dir == 'symlink':
+            out_dir = d / 'link-to-src'
+            os.symlink(str(src), str(out_dir))
+        elif same_dir == 'relative':
+            out_dir = type(src)(os.path.relpath(str(src), os.getcwd()))
+        else:
+            out_dir = src if same_dir else d / 'alf'
         m = load_model(params)
         # hashed after loading: load_model itself may add the inverse whitening matrix (see C04)
         before = dsgen.sha1_dir(src)
